@@ -133,7 +133,7 @@ func runC15(r *ev.Run, thorough bool) {
 	if thorough {
 		maxValid, maxTrunc, depth = 40, 30, 2
 	}
-	r.Rule = fmt.Sprintf("per type: events = up to %d valid wires (bases Z, D and every structural deviation: list lengths 0..3/255..257, every registered key, text lengths) + up to %d failing truncations at field boundaries and wires with unregistered discriminators; ALL event sequences of length <= %d decoded into ONE receiver starting from {fresh, hand-dirtied with the long variant, hand-dirtied with bodies of other registered types, key field naming one type while holding a body of another}, then every valid wire decoded into that receiver and into a fresh one; plus EVERY canonical V1 wire decoded into each hand-dirtied receiver; oracle: equal results; states = distinct receiver contents reached, transitions = decode events applied; distinct = (type,start,event sequence,final)", maxValid, maxTrunc, depth)
+	r.Rule = fmt.Sprintf("per type: events = up to %d valid wires (bases Z, D and every structural deviation: list lengths 0..3/255..257, every registered key, text lengths) + up to %d failing truncations at field boundaries and wires with unregistered discriminators; ALL event sequences of length <= %d decoded into ONE receiver starting from {fresh, hand-dirtied with the long variant, hand-dirtied with bodies of other registered types, key field naming one type while holding a body of another}, then every valid wire decoded into that receiver and into a fresh one; plus EVERY canonical V1 wire decoded into each hand-dirtied receiver and into receivers derived from the wire's own value (the same message; the same with every text padded out to its width / followed by a space; the same with every text one byte short); oracle: equal results; states = distinct receiver contents reached, transitions = decode events applied; distinct = (type,start,event sequence,final)", maxValid, maxTrunc, depth)
 	parTypes(r, bind.Types, func(t *rm.Type, l *ev.Local) {
 		valid, trunc := c15Events(t, maxValid, maxTrunc)
 		if t.DynField() >= 0 {
@@ -217,7 +217,27 @@ func runC15(r *ev.Run, thorough bool) {
 			if len(w) > 4096 {
 				return true
 			}
-			for si, st := range starts {
+			// start states derived from the value on the wire itself: a receiver that already holds this very message,
+			// holds it with every text spelled non-canonically (padded out to its field width on the pad side / followed
+			// by a space), or holds it with every text one byte short: "already equal, keep it" shortcuts live here
+			self := []*rm.Value{c.V,
+				valenum.MapTexts(c.V, func(f *rm.Field, txt []byte) []byte {
+					if f.Kind != "fixtext" {
+						return append(append([]byte{}, txt...), ' ')
+					}
+					pad := bytes.Repeat([]byte{byte(f.Pad)}, max(f.Width-len(txt), 0))
+					if f.Left {
+						return append(pad, txt...)
+					}
+					return append(append([]byte{}, txt...), pad...)
+				}),
+				valenum.MapTexts(c.V, func(f *rm.Field, txt []byte) []byte {
+					if len(txt) == 0 {
+						return []byte{byte(max(f.Pad, ' '))}
+					}
+					return append([]byte{}, txt[:len(txt)-1]...)
+				})}
+			for si, st := range append(append([]*rm.Value{}, starts...), self...) {
 				l.Eval(ev.H(fmt.Sprint(t.QName(), "v1", si)+string(w)), true)
 				l.Traces++
 				if v := c15Run(t, st, nil, w, l); v != nil {
